@@ -490,7 +490,7 @@ def dl_definitions(cpp, cls):
     for m in re.finditer(r'\b' + cls + r'::(' + ID + r')\s*\(', cpp):
         name = m.group(1)
         cl = cp.match_brace(cpp, m.end() - 1, '(', ')')
-        mm = re.match(r'\s*(const)?\s*(->\s*[\w:<>\s&]+?)?\s*(?=[:{])', cpp[cl + 1:])
+        mm = re.match(r'\s*(const)?\s*(->\s*(?:[\w<>&\s]|::)+?)?\s*(?=\{|:(?!:))', cpp[cl + 1:])
         if not mm:
             continue
         k = cl + 1 + mm.end()
@@ -635,10 +635,34 @@ def dl_table(cpp, hpp, cls, regions):
                              guarded=True, fallback=None))
     # declared members (dl-problem.hpp)
     cbody = struct_body(hpp, cls)
-    declared = [n for n, _, _, _ in member_functions(cbody) if n != cls]
+    mfs = member_functions(cbody)
+    declared = [n for n, _, _, _ in mfs if n != cls]
+    # reads of the data members of the function table: (reader, member)
+    #   constructor `this->x = functions->x;`, `get_name` (`functions->name`, checked above), inline getters of
+    #   dl-problem.hpp `length_t get_X() const { return functions->X; }`
+    reads = [('<ctor>:' + a, b) for a, b in re.findall(r'this->(' + ID + r')\s*=\s*functions->(' + ID + r')\s*;', body)]
+    if 'get_name' in defs:
+        reads.append(('get_name', 'name'))
+    for n, _, _, fb in mfs:
+        if fb is None or n == cls:
+            continue
+        fl = re.sub(r'\s+', ' ', fb).strip()
+        mm = re.fullmatch(r'return functions->(' + ID + r');', fl)
+        if mm:
+            reads.append((n, mm.group(1)))
+        elif 'functions->' in fl:
+            raise TErr(f'{cls}::{n} (dl-problem.hpp): unrecognised inline use of the function table {{ {fl} }}')
+    # every other mention of the table in the constructor is one of the recognised forms
+    n_deref = len(re.findall(r'functions->', body))
+    n_ctor_reads = sum(1 for r in reads if r[0].startswith('<ctor>:'))
+    n_tests = len(re.findall(r'if\s*\(\s*functions->' + ID + r'\s*\)', body))
+    n_known = n_ctor_reads + n_tests + len(init)
+    if n_deref != n_known:
+        raise TErr(f'{cls} constructor: {n_deref} uses of `functions->`, {n_known} recognised '
+                   '(data-member copies and guarded initialize_* calls)')
     regions[cls] = {'forwarded': len(fwd), 'provides': len(prov), 'ctor_steps': [s for _, s in steps],
-                    'hash': cp.ast_hash([fwd, prov, steps, init])}
-    return fwd, prov, [s for _, s in steps], init, declared
+                    'hash': cp.ast_hash([fwd, prov, steps, init, reads])}
+    return fwd, prov, [s for _, s in steps], init, declared, reads
 
 
 def abi_members(h, struct):
@@ -660,6 +684,92 @@ def abi_members(h, struct):
     return out
 
 
+def abi_data_fields(h, struct):
+    """names of the non-function-pointer members of an ABI struct (`alpaqa_length_t n ALPAQA_DEFAULT(0);`,
+    `alpaqa_length_t N ALPAQA_DEFAULT(0), nx ALPAQA_DEFAULT(0), …;`), read independently of abi_members"""
+    m = re.search(r'ALPAQA_BEGIN_STRUCT\(\s*' + struct + r'\s*\)\s*\{', h)
+    if not m:
+        raise TErr(f'{struct} not found in dl-problem.h')
+    ob = m.end() - 1
+    body = h[ob + 1:cp.match_brace(h, ob)]
+    body = re.sub(r'ALPAQA_DEFAULT\(\s*[\w]*\s*\)', '', body)
+    out = []
+    for stmt in body.split(';'):
+        stmt = stmt.strip()
+        if not stmt or '(' in stmt:
+            continue          # function-pointer member (parsed by abi_members)
+        for piece in split_top(stmt):
+            mm = re.search('(' + ID + r')\s*$', piece)
+            if not mm:
+                raise TErr(f'{struct}: cannot parse data member {piece!r}')
+            out.append(mm.group(1))
+    return out
+
+
+def vtable_fields(hpp, vt):
+    """the function-pointer members *declared* by a vtable struct:
+    `required_function_t<Sig> name;` / `optional_function_t<Sig> name = [&]default_name;`
+    (independent of the ALPAQA_TE_*_METHOD lines of the constructor that te_table reads)"""
+    vsrc = struct_body(hpp, vt)
+    out = []
+    for m in re.finditer(r'(?<![:\w])(required_function_t|optional_function_t)\s*<([^;]*?)>\s*(' + ID +
+                         r')\s*(?:=\s*&?\s*(' + ID + r'))?\s*;', vsrc):
+        out.append(dict(name=m.group(3), optional=m.group(1) == 'optional_function_t', init=m.group(4)))
+    n = len(re.findall(r'(?<![:\w])(?:required_function_t|optional_function_t)\s*<', vsrc))
+    if n != len(out):
+        raise TErr(f'{vt}: {n - len(out)} function members not parsed')
+    return out
+
+
+def te_dispatch(hpp, cls):
+    """out-of-class definitions `… Cls<Conf, Allocator>::method(params) const [-> R] { … call(vtable.entry, args) … }`
+    -> (method, entry, parameter names, forwarded arguments); every definition that dispatches through the vtable
+    (the OCP class has a checked and an unchecked definition of each method: both are listed)"""
+    out = []
+    for m in re.finditer(r'\b' + cls + r'\s*<\s*Conf\s*,\s*Allocator\s*>\s*::\s*(' + ID + r')\s*\(', hpp):
+        name = m.group(1)
+        cl = cp.match_brace(hpp, m.end() - 1, '(', ')')
+        mm = re.match(r'\s*(?:const)?\s*(?:->\s*[\w:<>\s&]+?)?\s*\{', hpp[cl + 1:])
+        if not mm:
+            continue
+        ob = cl + mm.end()
+        body = hpp[ob + 1:cp.match_brace(hpp, ob)]
+        calls = re.findall(r'\bcall\(\s*vtable\.(' + ID + r')\s*((?:,[^()]*)?)\)', body)
+        if not calls:
+            if re.search(r'\bvtable\.' + ID + r'\s*\(', body):
+                raise TErr(f'{cls}::{name}: calls a vtable entry without `call(vtable.entry, …)`')
+            continue
+        if len(calls) != 1:
+            raise TErr(f'{cls}::{name}: {len(calls)} vtable dispatches in one definition')
+        params = hpp[m.end():cl]
+        ps = [param_name(p) for p in split_top(params)] if params.strip() else []
+        args = [a.strip() for a in split_top(calls[0][1].lstrip(',').strip())] if calls[0][1].strip() else []
+        out.append(dict(method=name, entry=calls[0][0], params=ps, args=args))
+    return out
+
+
+def te_macro_text(src, name):
+    """normalised replacement text of `#define name(args) …` (line continuations joined, white space collapsed)"""
+    m = re.search(r'#\s*define\s+' + name + r'\s*\(([^)]*)\)((?:[^\n]*\\\n)*[^\n]*)', src)
+    if not m:
+        raise TErr(f'macro {name} not found')
+    body = m.group(2).replace('\\\n', ' ')
+    args = ','.join(a.strip() for a in m.group(1).split(','))
+    return args + ' :: ' + re.sub(r'\s+', ' ', body).strip()
+
+
+def emit_vtfields(name, fs):
+    rows = [f'    {{ name := {lstr(f["name"])}, optional := {"true" if f["optional"] else "false"}, '
+            f'init := {lopt(f["init"])} }}' for f in fs]
+    return f'def {name} : List VtField := [\n' + ',\n'.join(rows) + ']\n'
+
+
+def emit_dispatch(name, ds):
+    rows = [f'    {{ method := {lstr(d["method"])}, entry := {lstr(d["entry"])}, params := {llist(d["params"])}, '
+            f'args := {llist(d["args"])} }}' for d in ds]
+    return f'def {name} : List TEDispatch := [\n' + ',\n'.join(rows) + ']\n'
+
+
 def emit_abi(name, ms):
     rows = [f'    {{ name := {lstr(m["name"])}, ret := {lstr(m["ret"])}, params := ' +
             llist(m['params'], lambda p: f'({lstr(p[0])}, {lstr(p[1])})') +
@@ -667,12 +777,13 @@ def emit_abi(name, ms):
     return f'def {name} : List AbiMember := [\n' + ',\n'.join(rows) + ']\n'
 
 
-def emit_dl(name, cls, fwd, prov, steps, init, declared):
+def emit_dl(name, cls, fwd, prov, steps, init, declared, reads):
     L = [f'def {name} : DLTable where', f'  cls := {lstr(cls)}', '  fwd := [',
          ',\n'.join(emit_dlfwd(e) for e in fwd) + ']', '  prov := [',
          ',\n'.join(f'    {{ method := {lstr(n)}, test := {t} }}' for n, t in prov) + ']',
          '  ctor := [' + ', '.join(steps) + ']', '  init := [',
-         ',\n'.join(emit_dlfwd(e) for e in init) + ']', f'  declared := {llist(declared)}']
+         ',\n'.join(emit_dlfwd(e) for e in init) + ']', f'  declared := {llist(declared)}',
+         '  dataReads := ' + llist(reads, lambda p: f'({lstr(p[0])}, {lstr(p[1])})')]
     return '\n'.join(L) + '\n'
 
 
@@ -706,6 +817,27 @@ def main(out_path):
     rows, sup2, req2, opt2 = te_table(ocp, oc_tpp, 'TypeErasedControlProblem', 'ControlProblemVTable', regions)
     out.append('def ocpTE : TETable where\n  cls := "TypeErasedControlProblem"\n  entries := [\n' + ',\n'.join(rows) +
                ']\n  supports := []\n')
+    # lists read independently of the tables above: the vtable structs' declared function members, the public
+    # member functions of the type-erased classes, their dispatch definitions, the two ALPAQA_TE_*_METHOD macros
+    f_nlp = vtable_fields(te_hpp, 'ProblemVTable')
+    f_ocp = vtable_fields(ocp, 'ControlProblemVTable')
+    out.append('/-- function members declared by `ProblemVTable` (type-erased-problem.hpp) -/\n' + emit_vtfields('nlpVtFields', f_nlp))
+    out.append('/-- function members declared by `ControlProblemVTable` (ocproblem.hpp) -/\n' + emit_vtfields('ocpVtFields', f_ocp))
+    out.append('/-- member functions declared by `TypeErasedProblem` -/\ndef nlpTEMembers : List String := ' +
+               llist(class_members(te_hpp, 'TypeErasedProblem')) + '\n')
+    out.append('/-- member functions declared by `TypeErasedControlProblem` -/\ndef ocpTEMembers : List String := ' +
+               llist(class_members(ocp, 'TypeErasedControlProblem')) + '\n')
+    d_nlp = te_dispatch(te_hpp, 'TypeErasedProblem')
+    d_ocp = te_dispatch(ocp, 'TypeErasedControlProblem')
+    out.append('/-- `TypeErasedProblem::method(params) { return call(vtable.entry, args); }` -/\n' + emit_dispatch('nlpTEDispatch', d_nlp))
+    out.append('/-- the same for `TypeErasedControlProblem` (checked and unchecked definitions) -/\n' + emit_dispatch('ocpTEDispatch', d_ocp))
+    rm = read(INC + 'util/required-method.hpp')
+    out.append('/-- replacement text of `ALPAQA_TE_REQUIRED_METHOD` (util/required-method.hpp), white space normalised -/\n'
+               'def teRequiredMacro : String := ' + lstr(te_macro_text(rm, 'ALPAQA_TE_REQUIRED_METHOD')) + '\n')
+    out.append('/-- replacement text of `ALPAQA_TE_OPTIONAL_METHOD` -/\n'
+               'def teOptionalMacro : String := ' + lstr(te_macro_text(rm, 'ALPAQA_TE_OPTIONAL_METHOD')) + '\n')
+    regions['vtable_fields'] = {'nlp': len(f_nlp), 'ocp': len(f_ocp), 'dispatch_nlp': len(d_nlp), 'dispatch_ocp': len(d_ocp),
+                                'hash': cp.ast_hash([f_nlp, f_ocp, d_nlp, d_ocp])}
     # the vtable constructor's run-time checks
     vsrc = struct_body(ocp, 'ControlProblemVTable')
     chk = re.findall(r'if\s*\(\s*(\w+)\s*>\s*0\s*&&\s*(' + ID + r')\s*==\s*&?\s*(' + ID +
@@ -720,6 +852,13 @@ def main(out_path):
     h = read(DL_H)
     out.append(emit_abi('abiNLP', abi_members(h, 'alpaqa_problem_functions_t')))
     out.append(emit_abi('abiOCP', abi_members(h, 'alpaqa_control_problem_functions_t')))
+    dn = abi_data_fields(h, 'alpaqa_problem_functions_t')
+    do = abi_data_fields(h, 'alpaqa_control_problem_functions_t')
+    out.append('/-- data (non-function-pointer) members of `alpaqa_problem_functions_t` -/\n'
+               'def abiNLPData : List String := ' + llist(dn) + '\n')
+    out.append('/-- data members of `alpaqa_control_problem_functions_t` -/\n'
+               'def abiOCPData : List String := ' + llist(do) + '\n')
+    regions['abi_data'] = {'nlp': dn, 'ocp': do}
     out.append(emit_dl('dlNLP', 'DLProblem', *dl_table(cpp, hpp, 'DLProblem', regions)))
     out.append(emit_dl('dlOCP', 'DLControlProblem', *dl_table(cpp, hpp, 'DLControlProblem', regions)))
     m = re.search(r'struct\s+(?:[A-Z_]+\s+)?invalid_abi_error\s*:\s*(?:public\s+)?([\w:]+)', hpp)
